@@ -40,6 +40,9 @@ pub trait Shape: Sized + 'static {
     fn own_write(e: &mut Self, j: &mut i64, id: u32);
     fn paddrs(p: &Self::P, out: &mut Vec<usize>);
     fn pmaddrs(p: &Self::PM, out: &mut Vec<usize>);
+    /// make component `*j` of a pointer bundle null
+    fn pnull(p: &mut Self::P, j: &mut i64);
+    fn pmnull(p: &mut Self::PM, j: &mut i64);
     /// pop / push / clear one leaf array directly through the public fields (desynchronise)
     fn desync(v: &mut Self::V, j: &mut i64, what: &str, id: u32);
     fn nleaves() -> usize { let mut s = String::new(); Self::desc(&mut s); s.chars().filter(|c| "zbslh".contains(*c)).count() }
@@ -73,6 +76,8 @@ macro_rules! shape {
             fn own_write(e: &mut $T, j: &mut i64, id: u32) { $( shape!(@ownw $kind $ty, (e.$f), j, id); )* }
             fn paddrs(p: &$P, out: &mut Vec<usize>) { $( shape!(@paddrs $kind $ty, (p.$f), out, paddrs); )* }
             fn pmaddrs(p: &$PM, out: &mut Vec<usize>) { $( shape!(@paddrs $kind $ty, (p.$f), out, pmaddrs); )* }
+            fn pnull(p: &mut $P, j: &mut i64) { $( shape!(@pnull $kind $ty, (p.$f), j, pnull, null); )* }
+            fn pmnull(p: &mut $PM, j: &mut i64) { $( shape!(@pnull $kind $ty, (p.$f), j, pmnull, null_mut); )* }
             fn desync(v: &mut $V, j: &mut i64, what: &str, id: u32) { $( shape!(@desync $kind $ty, (v.$f), j, what, id); )* }
         }
     };
@@ -102,6 +107,8 @@ macro_rules! shape {
     (@ownw nested $ty:ty, ($e:expr), $j:expr, $id:expr) => { <$ty as Shape>::own_write(&mut $e, $j, $id) };
     (@paddrs leaf $ty:ty, ($e:expr), $out:expr, $m:ident) => { $out.push($e as usize) };
     (@paddrs nested $ty:ty, ($e:expr), $out:expr, $m:ident) => { <$ty as Shape>::$m(&$e, $out) };
+    (@pnull leaf $ty:ty, ($e:expr), $j:expr, $m:ident, $n:ident) => { if *$j == 0 { $e = std::ptr::$n(); } *$j -= 1; };
+    (@pnull nested $ty:ty, ($e:expr), $j:expr, $m:ident, $n:ident) => { <$ty as Shape>::$m(&mut $e, $j) };
     (@desync leaf $ty:ty, ($e:expr), $j:expr, $what:expr, $id:expr) => {
         if *$j == 0 { match $what { "pop" => { $e.pop(); } "push" => { $e.push(<$ty as Leaf>::make($id)); } "clear" => { $e.clear(); } _ => panic!("bad desync") } }
         *$j -= 1;
